@@ -26,7 +26,7 @@ from harness import gen_template as G
 from harness import ref_render as RR
 from harness import target_canon as TC
 from harness import tmpl_rt as rt
-from harness.common import dec
+from harness.common import dec, enc
 
 RULE = ("template sets (1-3 templates, include edges) from the grammar of harness/gen_template.py: text, ${expr | "
         "filters}, % if/for/while/try, <%def> (plain/buffered/filtered/cached/decorated, top-level and nested), "
@@ -540,6 +540,52 @@ def handwritten(ctx):
                                            "eh-true" if eh else "caller", "files": files}, bad[1], "oracle.handwritten")
 
 
+# --------------------------------------------------------------------------------------------- literal text end to end
+
+LIT_ALPHABET = list("ab z\t\n\r%#$<>{}/\\&'\"") + ["\u00e9", "\u4e16", "\U0001f600", "\u2028", "\x0b"]
+
+
+def literal(ctx, drv):
+    """`tgt literal`: the Lean pipeline lex -> tmplOfTokens -> codegen -> exec on source strings, against the real
+    `Template(s).render_unicode()`.  For a directive-free (`Plain`) source both must return the source itself
+    (theorem `render_literal` in Props/C01.lean); for any source whose tokens are all text both must agree."""
+    from mako.template import Template
+    st = ctx.stream("corr.literal")
+    rng = ctx.rng
+    n = 4000 if ctx.quick else 60000
+    srcs = ["", "a", "\n", "\r\n", "a\r\nb\r", "x % y ## z", " %", "50% of <b> & {x} $ y", "\u00e9\u4e16\U0001f600\n"]
+    while len(srcs) < n:
+        k = rng.choice([1, 2, 3, 4, 6, 9, 14])
+        srcs.append("".join(rng.choice(LIT_ALPHABET) for _ in range(k)))
+    outs = drv.ask_many(["tgt literal " + enc(x) for x in srcs])
+    for src, o in zip(srcs, outs):
+        st["cases"] += 1
+        f = o.split(" ")
+        if len(f) < 3:
+            ctx.disagree("corr.literal", {"input": src}, o, "malformed answer")
+            continue
+        plain, lexok = f[0] == "1", f[1] == "1"
+        if f[2] == "none":
+            ctx.branch("literal:not-text-only")
+            if plain:
+                ctx.disagree("corr.literal", {"input": src, "what": "Plain but tokens are not all text"}, o, None)
+            continue
+        model = (f[2][:3], dec(f[3]))
+        try:
+            impl = ("val", Template(src).render_unicode())
+        except Exception as ex:       # noqa - the lexer rejects it: then the model's lexer must not have said ok
+            impl = ("exc", type(ex).__name__)
+        ctx.branch("literal:plain" if plain else "literal:text-tokens-only")
+        if plain:
+            ctx.nontriv(("literal", src))
+            if impl != ("val", src):
+                ctx.violation("literal-text-not-reproduced", {"input": src}, {"rendered": impl}, "oracle.literal")
+        if lexok and model != impl:
+            ctx.disagree("corr.literal", {"input": src, "plain": plain}, model, impl)
+        if plain and model != ("val", src):
+            ctx.disagree("corr.literal", {"input": src, "what": "model does not reproduce a Plain source"}, model, src)
+
+
 # --------------------------------------------------------------------------------------------- entry points
 
 def knob_sets(ctx):
@@ -613,6 +659,8 @@ def run(ctx):
         ctx.log("corr.structural: %d templates" % ctx.streams["corr.structural"]["cases"])
         behaviour(ctx, drv, pending)
         ctx.log("corr.behaviour: %d runs" % ctx.streams["corr.behaviour"]["cases"])
+        literal(ctx, drv)
+        ctx.log("corr.literal: %d sources" % ctx.streams["corr.literal"]["cases"])
 
 
 def replay(ctx, data):
